@@ -52,7 +52,10 @@ import (
 	"github.com/nspcc-dev/neofs-node/pkg/local_object_storage/blobstor/fstree"
 	meta "github.com/nspcc-dev/neofs-node/pkg/local_object_storage/metabase"
 	"github.com/nspcc-dev/neofs-node/pkg/local_object_storage/shard"
+	"github.com/nspcc-dev/neofs-node/pkg/local_object_storage/blobstor/common"
+	"github.com/nspcc-dev/neofs-node/verifharness/bubble"
 	"github.com/nspcc-dev/neofs-node/verifharness/ev"
+	"github.com/nspcc-dev/neofs-node/verifharness/faultstore"
 	"github.com/nspcc-dev/neofs-node/verifharness/snap"
 	"github.com/nspcc-dev/neofs-node/verifharness/stor"
 	"github.com/nspcc-dev/neofs-node/verifharness/uni"
@@ -221,6 +224,7 @@ func (s *engineStore) close() error   { return s.e.E.Close() }
 
 type world struct {
 	t     *rapid.T
+	rec   *ev.Recorder
 	st    store
 	ep    *stor.Epoch
 	epoch uint64
@@ -232,7 +236,13 @@ type world struct {
 	rmCnr   map[int]bool
 	ops     []string
 	garbage int
+	blobs   []*faultstore.Store
+	// raced: a GC pass ran inside the write-cache flush window (class of fpFlushRace)
+	raced bool
 }
+
+// fpFlushRace: write-cache flush vs Shard delete leaves an orphan blob.
+const fpFlushRace = "C44:flush-vs-delete-orphan-blob"
 
 func (w *world) logf(f string, a ...any) { w.ops = append(w.ops, fmt.Sprintf(f, a...)) }
 
@@ -443,6 +453,49 @@ func (w *world) actGC() {
 	w.logf("gc pass @%d", w.epoch)
 }
 
+// actFlush flushes the write-cache explicitly (background flushing is driven
+// by a 1 s ticker which never fires on the bubble's fake clock). With racing
+// set, one GC pass runs inside the flush window: after the flush has read the
+// first object from the cache and before it writes it to the blobstor.
+func (w *world) actFlush(racing bool) {
+	if !w.wc {
+		w.t.Skip("no write-cache")
+	}
+	if racing {
+		if ev.IsOpen("C44", fpFlushRace) {
+			w.rec.Excluded(1)
+			w.t.Skip("known finding: " + fpFlushRace)
+		}
+		fired := false
+		for _, b := range w.blobs {
+			b.SetBefore(func(m string, _ []oid.Address) {
+				if (m == "Put" || m == "PutBatch") && !fired {
+					fired = true
+					w.gcPass()
+				}
+			})
+		}
+		defer func() {
+			for _, b := range w.blobs {
+				b.SetBefore(nil)
+			}
+			if fired {
+				w.raced = true
+			}
+		}()
+	}
+	for n, sh := range w.st.shards() {
+		if err := sh.FlushWriteCache(false); err != nil {
+			w.fail("flush of shard %d failed: %v", n, err)
+		}
+	}
+	if racing {
+		w.logf("flush write-cache with a GC pass inside the flush window @%d", w.epoch)
+	} else {
+		w.logf("flush write-cache @%d", w.epoch)
+	}
+}
+
 // view is the observable state: directory digest + metadata view vector.
 func (w *world) view() string {
 	var roots []string
@@ -589,16 +642,24 @@ func run(t *rapid.T, rec *ev.Recorder, engineMode bool) {
 		ev.Inconclusive("mkdtemp: %v", err)
 	}
 	defer os.RemoveAll(dir)
-	w := &world{t: t, ep: &stor.Epoch{}, objs: map[id]*mobj{}, pre: map[id]bool{}, rmCnr: map[int]bool{}}
+	w := &world{t: t, rec: rec, ep: &stor.Epoch{}, objs: map[id]*mobj{}, pre: map[id]bool{}, rmCnr: map[int]bool{}}
 	w.batch = rapid.IntRange(1, 5).Draw(t, "batch")
 	w.wc = rapid.IntRange(0, 3).Draw(t, "write-cache") == 0
-	if os.Getenv("C44_FORCE_WC") != "" { // experiments only
-		w.wc = true
-	}
 	fsto := []fstree.Option{fstree.WithCombinedWriteInterval(200_000)} // 0.2 ms
+	if w.wc {
+		// the flush path must not wait for a batching timer while holding the cache's
+		// mode lock (a mutex waiter would freeze the bubble's fake clock, see HARNESS.md)
+		fsto = []fstree.Option{fstree.WithCombinedCountLimit(1)}
+	}
+	blob := func(d string) common.Storage {
+		fs := faultstore.New(stor.FSTree(stor.BlobDir(d), fsto...))
+		w.blobs = append(w.blobs, fs)
+		return fs
+	}
 	if engineMode {
 		cfg := func(n int) stor.ShardCfg {
-			return stor.ShardCfg{Dir: fmt.Sprintf("%s/s%d", dir, n), Epoch: w.ep, WriteCache: w.wc, RemoverBatch: w.batch, FSTOpts: fsto}
+			d := fmt.Sprintf("%s/s%d", dir, n)
+			return stor.ShardCfg{Dir: d, Epoch: w.ep, WriteCache: w.wc, RemoverBatch: w.batch, Blob: blob(d)}
 		}
 		e, err := stor.OpenEngine([]stor.ShardCfg{cfg(0), cfg(1)})
 		if err != nil {
@@ -617,7 +678,7 @@ func run(t *rapid.T, rec *ev.Recorder, engineMode bool) {
 		w.st = es
 	} else {
 		ss := &shardStore{dir: dir}
-		sh, err := stor.OpenShard(stor.ShardCfg{Dir: dir, Epoch: w.ep, WriteCache: w.wc, RemoverBatch: w.batch, FSTOpts: fsto,
+		sh, err := stor.OpenShard(stor.ShardCfg{Dir: dir, Epoch: w.ep, WriteCache: w.wc, RemoverBatch: w.batch, Blob: blob(dir),
 			Extra: []shard.Option{shard.WithExpiredObjectsCallback(ss.expired)}})
 		if err != nil {
 			ev.Inconclusive("open shard: %v", err)
@@ -649,6 +710,9 @@ func run(t *rapid.T, rec *ev.Recorder, engineMode bool) {
 		if len(w.rmCnr) > 0 {
 			labels = append(labels, "container-removed")
 		}
+		if w.raced {
+			labels = append(labels, "gc-inside-flush-window")
+		}
 		if nontrivial {
 			labels = append(labels, "garbage>batch")
 		}
@@ -672,7 +736,9 @@ func run(t *rapid.T, rec *ev.Recorder, engineMode bool) {
 			}
 			w.actRmContainer()
 		},
-		"epoch": func(*rapid.T) { w.actEpoch() },
+		"epoch":      func(*rapid.T) { w.actEpoch() },
+		"flush":      func(*rapid.T) { w.actFlush(false) },
+		"flush-race": func(*rapid.T) { w.actFlush(true) },
 		"gc": func(t *rapid.T) {
 			if rapid.IntRange(0, 1).Draw(t, "really") != 0 {
 				t.Skip("sometimes")
@@ -726,6 +792,17 @@ func run(t *rapid.T, rec *ev.Recorder, engineMode bool) {
 	})
 	w.logf("quiescent: %d passes at the fixed epoch, %d more (epoch+1, pass) rounds", roundsA, roundsB)
 	if bad := w.leftovers(); len(bad) > 0 {
+		if w.raced {
+			onlyBlobs := true
+			for _, b := range bad {
+				if !strings.Contains(b, "blob still stored") {
+					onlyBlobs = false
+				}
+			}
+			if onlyBlobs {
+				w.fail("orphan blobs after a GC pass ran inside the write-cache flush window [%s]:\n  %s", fpFlushRace, strings.Join(bad, "\n  "))
+			}
+		}
 		w.fail("never removed / wrongly removed at the fixed point (epoch %d beyond every expiration, 3 rounds without change):\n  %s", w.epoch, strings.Join(bad, "\n  "))
 	}
 	if len(stalled) > 0 {
@@ -743,11 +820,11 @@ func run(t *rapid.T, rec *ev.Recorder, engineMode bool) {
 func TestC44Shard(t *testing.T) {
 	rec := ev.New("C44", "shard")
 	defer rec.Flush()
-	rapid.Check(t, func(t *rapid.T) { run(t, rec, false) })
+	bubble.Check(t, func(t *rapid.T) { run(t, rec, false) })
 }
 
 func TestC44Engine(t *testing.T) {
 	rec := ev.New("C44", "engine")
 	defer rec.Flush()
-	rapid.Check(t, func(t *rapid.T) { run(t, rec, true) })
+	bubble.Check(t, func(t *rapid.T) { run(t, rec, true) })
 }
